@@ -172,7 +172,7 @@ PropViolations(e, o) ==
              \E w \in obs.wire : w[1] = e.out[i].text /\ w[2] = e.out[i].rs /\ w[3] # e.out[i].id
         THEN {<<"C18", "text transmitted more than once">>} ELSE {})
   \cup (IF e.ev # "Done" /\ \E i \in DOMAIN e.out : e.out[i].t = "P" /\ e.out[i].text # 0 /\
-             (e.ev # "Send" \/ st[p].ms \in {"enc", "fin"} \/ st[p].pol.req)
+             OTREnabled(st[p]) /\ (e.ev # "Send" \/ st[p].ms \in {"enc", "fin"} \/ st[p].pol.req)
         THEN {<<"C03", "user text emitted in clear">>} ELSE {})
   \cup (IF e.ev # "Done" /\ e.st.ms = "enc" /\ e.st.nrsq > 1
         THEN {<<"C19", "resend queue retains more than the last message">>} ELSE {})
@@ -202,6 +202,30 @@ PropViolations(e, o) ==
   \cup (IF e.ev # "Done" /\ e.st.ms = "enc" /\ (HasEv(e, "sec:GoneSecure") \/ HasEv(e, "sec:StillSecure")) /\ e.st.peer = p
            /\ o.fam # "reflect"
         THEN {<<"C01", "encrypted with itself">>} ELSE {})
+  \cup (IF e.ev = "Recv" /\ st[p].ver = 0 /\ e.st.ver # 0 /\ e.m.t \in {"Q", "P", "DHC", "DHK", "RS", "SIG", "D"} /\
+             LET offered == CASE e.m.t = "Q" -> {e.m.vs[i] : i \in DOMAIN e.m.vs}
+                              [] e.m.t = "P" -> {e.m.tag[i] : i \in DOMAIN e.m.tag}
+                              [] OTHER -> {e.m.v}
+                 cand == offered \cap Versions(st[p])
+             IN cand = {} \/ e.st.ver # (CHOOSE v \in cand : \A u \in cand : u <= v)
+        THEN {<<"C16", "committed version is not the highest one allowed by policy among those offered">>} ELSE {})
+  \cup (IF e.ev # "Done" /\ \E i \in DOMAIN e.out : e.out[i].t \in {"DHC", "DHK", "RS", "SIG", "D"} /\ e.out[i].v \notin Versions(st[p])
+        THEN {<<"C16", "emitted a message of a version the policy forbids">>} ELSE {})
+  \cup (IF e.ev # "Done" /\ ~OTREnabled(st[p]) /\ e.ev \in {"Send", "Recv"} /\
+             ~(IF e.ev = "Send" THEN Len(e.out) = 1 /\ e.out[1].t = "P" /\ e.out[1].text = e.text /\ ~e.out[1].tagged
+               ELSE Len(e.out) = 0 /\ e.raweq)
+        THEN {<<"C16", "with no version allowed a message was not handed through unchanged">>} ELSE {})
+  \cup (IF e.ev # "Done" /\ ((e.ev = "Recv" /\ ~e.m.xt) \/ \E i \in DOMAIN e.out : ~e.out[i].xt)
+        THEN {<<"C15", "ExtractInstanceTags disagrees with the tags the message carries">>} ELSE {})
+  \cup (IF e.ev # "Done" /\ e.st.otag = -1
+        THEN {<<"C15", "own instance tag below 0x100">>} ELSE {})
+  \cup (IF e.ev = "Recv" /\ st[p].ttag # 0 /\ e.st.ttag # st[p].ttag
+        THEN {<<"C15", "the bound peer instance changed">>} ELSE {})
+  \cup (IF e.ev = "Recv" /\ e.m.t \in {"DHC", "DHK", "RS", "SIG", "D", "G"} /\ e.m.t # "G" /\ e.m.v = 3 /\ st[p].ver = 3
+           /\ st[p].ttag # 0 /\ (e.m.st # st[p].ttag \/ (e.m.rt # 0 /\ e.m.rt # st[p].otag))
+           /\ (e.plain # 0 \/ (\E i \in DOMAIN e.out : e.out[i].t # "E" \/ (e.m.st > 0 /\ e.m.rt # -1))
+                \/ \E f \in (StateFields \ {"frag"}) : SpecField(st[p], f) # Logged(e.st, f))
+        THEN {<<"C15", "a message from or for another instance was not ignored">>} ELSE {})
   \cup (IF e.ev = "Done" /\ o.fam = "ake" /\ e.qa = 0 /\ e.qb = 0 /\ o.started /\
              ~(/\ st["A"].ms = "enc" /\ st["B"].ms = "enc" /\ st["A"].sess = st["B"].sess
                /\ st["A"].peer = "B" /\ st["B"].peer = "A" /\ st["A"].rev # st["B"].rev)
